@@ -1,32 +1,32 @@
 # Per-property configuration of bin/check: which correspondence slices (harness
 # sub-commands) the property's theorems depend on, and extra trusted-base notes.
 # slice entry: (name, {tier: [extra harness args]})
-CRDT = [("crdt-counter", {"quick": ["-n", "120"], "thorough": ["-n", "4000"], "search": ["-n", "1500"]}),
-        ("crdt-map", {"quick": ["-n", "150"], "thorough": ["-n", "4000"], "search": ["-n", "1500"]}),
-        ("crdt-list", {"quick": ["-n", "150"], "thorough": ["-n", "4000"], "search": ["-n", "1500"]})]
-WIRE = [("wire-counter", {"quick": ["-n", "40"], "thorough": ["-n", "1500"], "search": ["-n", "400"]}),
-        ("wire-map", {"quick": ["-n", "40"], "thorough": ["-n", "1500"], "search": ["-n", "400"]}),
-        ("wire-list", {"quick": ["-n", "40"], "thorough": ["-n", "1500"], "search": ["-n", "400"]}),
-        ("wire-doc", {"quick": ["-n", "30"], "thorough": ["-n", "1200"], "search": ["-n", "300"]})]
+CRDT = [("crdt-counter", {"quick": ["-n", "120"], "thorough": ["-n", "1500"], "search": ["-n", "1500"]}),
+        ("crdt-map", {"quick": ["-n", "150"], "thorough": ["-n", "1500"], "search": ["-n", "1500"]}),
+        ("crdt-list", {"quick": ["-n", "150"], "thorough": ["-n", "1500"], "search": ["-n", "1500"]})]
+WIRE = [("wire-counter", {"quick": ["-n", "40"], "thorough": ["-n", "300"], "search": ["-n", "400"]}),
+        ("wire-map", {"quick": ["-n", "40"], "thorough": ["-n", "300"], "search": ["-n", "400"]}),
+        ("wire-list", {"quick": ["-n", "40"], "thorough": ["-n", "300"], "search": ["-n", "400"]}),
+        ("wire-doc", {"quick": ["-n", "30"], "thorough": ["-n", "240"], "search": ["-n", "300"]})]
 WIREF = [(n, {k: v + ["-faults"] for k, v in a.items()}) for (n, a) in WIRE]
 WIRED = [(n, {k: v + ["-dbfaults"] for k, v in a.items()}) for (n, a) in WIRE]
 SRV_TRUST = ["in-memory MongoDB wire-protocol server (harness/fakemongo) standing in for mongod: unique _id, ordered insertMany, upsert, find with sort — assumed to match MongoDB for the operators orda uses",
              "in-process MQTT broker (harness/fakemqtt) recording publishes"]
-API = [("api-counter", {"quick": ["-n", "60"], "thorough": ["-n", "3000"], "search": ["-n", "1000"]}),
-       ("api-map", {"quick": ["-n", "100"], "thorough": ["-n", "4000"], "search": ["-n", "1500"]}),
-       ("api-list", {"quick": ["-n", "100"], "thorough": ["-n", "4000"], "search": ["-n", "1500"]})]
-CONC = [("conc-counter", {"quick": ["-n", "60"], "thorough": ["-n", "3000"], "search": ["-n", "600"]}),
-        ("conc-map", {"quick": ["-n", "60"], "thorough": ["-n", "3000"], "search": ["-n", "600"]}),
-        ("conc-list", {"quick": ["-n", "60"], "thorough": ["-n", "3000"], "search": ["-n", "600"]})]
-CONCSRV = [("concsrv-counter", {"quick": ["-n", "12"], "thorough": ["-n", "600"], "search": ["-n", "100"]}),
-           ("concsrv-map", {"quick": ["-n", "12"], "thorough": ["-n", "600"], "search": ["-n", "100"]}),
-           ("concsrv-list", {"quick": ["-n", "12"], "thorough": ["-n", "600"], "search": ["-n", "100"]})]
-DOC = [("doc", {"quick": ["-n", "150"], "thorough": ["-n", "6000"], "search": ["-n", "1500"]})]
-REALTIME = [("realtime-counter", {"quick": ["-n", "8"], "thorough": ["-n", "300"], "search": ["-n", "60"]}),
-            ("realtime-map", {"quick": ["-n", "8"], "thorough": ["-n", "300"], "search": ["-n", "60"]}),
-            ("realtime-list", {"quick": ["-n", "8"], "thorough": ["-n", "300"], "search": ["-n", "60"]})]
+API = [("api-counter", {"quick": ["-n", "60"], "thorough": ["-n", "1200"], "search": ["-n", "1000"]}),
+       ("api-map", {"quick": ["-n", "100"], "thorough": ["-n", "1500"], "search": ["-n", "1500"]}),
+       ("api-list", {"quick": ["-n", "100"], "thorough": ["-n", "1500"], "search": ["-n", "1500"]})]
+CONC = [("conc-counter", {"quick": ["-n", "60"], "thorough": ["-n", "1200"], "search": ["-n", "600"]}),
+        ("conc-map", {"quick": ["-n", "60"], "thorough": ["-n", "1200"], "search": ["-n", "600"]}),
+        ("conc-list", {"quick": ["-n", "60"], "thorough": ["-n", "1200"], "search": ["-n", "600"]})]
+CONCSRV = [("concsrv-counter", {"quick": ["-n", "12"], "thorough": ["-n", "90"], "search": ["-n", "100"]}),
+           ("concsrv-map", {"quick": ["-n", "12"], "thorough": ["-n", "90"], "search": ["-n", "100"]}),
+           ("concsrv-list", {"quick": ["-n", "12"], "thorough": ["-n", "90"], "search": ["-n", "100"]})]
+DOC = [("doc", {"quick": ["-n", "150"], "thorough": ["-n", "2000"], "search": ["-n", "1500"]})]
+REALTIME = [("realtime-counter", {"quick": ["-n", "8"], "thorough": ["-n", "60"], "search": ["-n", "60"]}),
+            ("realtime-map", {"quick": ["-n", "8"], "thorough": ["-n", "60"], "search": ["-n", "60"]}),
+            ("realtime-list", {"quick": ["-n", "8"], "thorough": ["-n", "60"], "search": ["-n", "60"]})]
 PROPS = {
-    "C14": {"slices": [("codec", {"quick": ["-n", "1500"], "thorough": ["-n", "60000"], "search": ["-n", "8000"]})],
+    "C14": {"slices": [("codec", {"quick": ["-n", "1500"], "thorough": ["-n", "20000"], "search": ["-n", "8000"]})],
             "trusted": ["encoding/json, google.golang.org/protobuf and mongo-driver/bson byte formats: exercised (every case goes through all three), not modelled",
                         "float64: the model's numbers are exact integers; faithful for |z| <= 2^53, non-integral floats are not generated"],
             "assumptions": ["lamport clocks below 2^63 (BSON has no uint64)", "snapshot operations: their body is covered by C10, not by the codec model"]},
@@ -41,7 +41,7 @@ PROPS = {
     "C11": {"slices": WIRE + WIRED, "trusted": SRV_TRUST, "assumptions": ["snapshot updates of one datatype run one at a time (their TryLock; a racing update is skipped)", "Document snapshots are compared by the replay oracle only, not modelled"]},
     "C20": {"slices": CONC, "trusted": ["the Go scheduler: the schedules explored by the stress slices are those the runtime happens to produce under randomized yields (2..8 goroutines, 16 cores); the theorem quantifies over all schedules of the model, the slices sample schedules of the code"],
             "assumptions": ["Model/Conc.v is a hand transcription of BeginTransaction/EndTransaction/unlock (statement-level atomic steps, sequentially consistent memory)", "data-race freedom in the sense of the Go memory model is not claimed (Rollback rewrites metadata a concurrent pack builder reads)", "Document is not driven by the concurrent slices"]},
-    "C12": {"slices": CONCSRV, "race": [("concsrv-counter", {"quick": ["-n", "8"], "thorough": ["-n", "200"]}), ("concsrv-list", {"quick": ["-n", "8"], "thorough": ["-n", "200"]})],
+    "C12": {"slices": CONCSRV, "race": [("concsrv-counter", {"quick": ["-n", "8"], "thorough": ["-n", "40"]}), ("concsrv-list", {"quick": ["-n", "8"], "thorough": ["-n", "40"]})],
             "race_scope": "orda/server/",
             "trusted": SRV_TRUST + ["the Go scheduler and race detector: schedules of the real server are sampled (2..16 simultaneous calls on 16 cores), the theorem quantifies over all schedules of the model", "LocalLock (a CAS mutex with a lease timeout) is used, not the Redis lock"],
             "assumptions": ["Model/SrvLock.v is a hand transcription of the handler's TryLock / critical section / Unlock; one storage command is one atomic step", "storage commands on documents of different datatypes commute (hypothesis of the serializability theorem; validated by replaying real concurrent rounds on the sequential model)", "PatchDocument is not driven (Document is not modelled)"]},
